@@ -33,7 +33,8 @@ Fragment (anything else raises TranslateError => tie broken):
                `+ - *`, `/` (raises ZeroDivisionError when the divisor is 0), `e**2`, unary `-`,
                `len(e)`, `int(x)` after `assert isinstance(x, (int, np.integer))`, `cast(T, e)`,
                `a if c else b`, string building (opaque)
-  conditions : `==` / `!=` of numbers, names, type codes; `is None` / `is not None`;
+  conditions : `==` / `!=` of numbers, names, type codes; `in` / `not in` a literal tuple / list / set;
+               `is None` / `is not None`;
                bools by truthiness / `is True` / `is False` / `== True`; `not`, `and`, `or`;
                `isinstance(other, self.__class__)` (true: `other` is a Result);
                `isinstance(x, (int, np.integer))`
